@@ -59,6 +59,17 @@ const (
 type c10Cfg struct {
 	Pool int `json:"pool"` // maxroutine
 	HT   int `json:"ht"`   // handletimeout in ms, 0 = none
+	QCap int `json:"qcap"` // queuecap of the adapters: 0 = the usual large one (10000), n > 0 = n, -1 = none (unbuffered job queue)
+}
+
+func (c c10Cfg) queueCap() int {
+	switch {
+	case c.QCap == 0:
+		return 10000
+	case c.QCap < 0:
+		return 0
+	}
+	return c.QCap
 }
 
 // script kinds of the servant's act()
@@ -107,6 +118,8 @@ type c10Scn struct {
 	// halfclose scenarios (TCP): connection 0 carries the blockers and stays open; every other connection sends its
 	// requests StaggerMs later, then shuts down its sending side (FIN) and keeps reading until the server closes
 	HalfClose bool `json:"half_close,omitempty"`
+	// large bursts: judged by the monitor only (the Coq evaluation of megabytes of hex literals does not fit the quick tier)
+	NoModel bool `json:"no_model,omitempty"`
 	// TCP: pause after every write, so that the server's read really ends where the write ended
 	ChunkPauseMs int `json:"chunk_pause_ms,omitempty"`
 	// runs alone in its child, before the concurrent scenarios: its requests must find idle workers and an empty queue
@@ -618,12 +631,15 @@ func c10Monitor(s *c10Scn) []c10Fail {
 		proto = "udp"
 	}
 	where := fmt.Sprintf("%s pool=%d handletimeout=%dms", proto, s.Cfg.Pool, s.Cfg.HT)
+	if s.Cfg.QCap != 0 {
+		where += fmt.Sprintf(" queuecap=%d", s.Cfg.queueCap())
+	}
 	byID := map[int32][]c10Reply{}
 	ids := map[int32]bool{}
 	for i := range s.Reqs {
 		ids[s.Reqs[i].ID] = true
 	}
-	timingScn := s.Cfg.HT > 0 || s.Kind == "queue" || s.UDP || s.HalfClose || s.Exclusive
+	timingScn := s.Cfg.HT > 0 || s.Kind == "queue" || s.UDP || s.HalfClose || s.Exclusive || s.Kind == "burst-queue"
 	onConn := map[int32]int{}
 	replyNs := map[int32]int64{}
 	for i := range s.Reqs {
@@ -848,7 +864,7 @@ func c10CoqTrace(s *c10Scn, q *c10Req) string {
 }
 
 func c10Coq(s *c10Scn) string {
-	if s.Err != "" {
+	if s.Err != "" || s.NoModel {
 		return ""
 	}
 	var rs []string
@@ -1113,6 +1129,86 @@ func c10GenOwnTimeout(rng *rand.Rand, cfg c10Cfg, udp bool, tier string) c10Scn 
 	return s
 }
 
+// a message of n bytes that only this request has: a foreign, mixed or stale body is visible in the echo
+func c10PatternMsg(id int32, n int, ascii bool) []byte {
+	b := make([]byte, n)
+	x := uint32(id)*2654435761 + 12345
+	for i := range b {
+		x = x*1664525 + 1013904223
+		if ascii {
+			b[i] = byte(0x30 + (x>>24)%75)
+		} else {
+			b[i] = byte(x >> 24)
+		}
+	}
+	tag := fmt.Sprintf("<%d>", id)
+	copy(b, tag)
+	return b
+}
+
+// many requests in flight at once with large and distinct responses (the echo of a message derived from the request id,
+// or an error whose message it is): pipelined on one connection and over several, fast handlers. Each must be answered
+// exactly once with its own id, version, type and its own payload, bit for bit.
+func c10GenBurstLarge(rng *rand.Rand, cfg c10Cfg, udp bool, tier string, inModel bool) c10Scn {
+	s := c10Scn{Cfg: cfg, UDP: udp, Kind: "burst-large", Conns: []int{1, 3, 4}[rng.Intn(3)], Chunks: []int{4096, 1000, 8192}, NoModel: !inModel}
+	n, size := 36, 3000
+	if udp {
+		n, size = 16, 2500 // stays inside the socket buffers
+	}
+	if inModel {
+		n, size = 8, 700
+	}
+	ids := c10DistinctIDs(rng, n)
+	for i := 0; i < n; i++ {
+		q := c10GenReq(rng, cfg, ids[i])
+		q.Func = []string{"act", "fetch", "mixed", "notify", "calc"}[i%5]
+		q.Ver = []int16{c10VerTars, c10VerJSON, c10VerTup}[i%3]
+		q.Kind = []int32{c10KOk, c10KOk, c10KTarsErr, c10KOkCtx, c10KPlain}[(i/3)%5]
+		if q.Ver == c10VerTup && (q.Kind == c10KTarsErr || q.Kind == c10KPlain) {
+			q.Kind = c10KOk // a TUP failure has no body to compare
+		}
+		q.PType = c10Normal
+		if i%9 == 8 {
+			q.PType = c10OneWay
+		}
+		q.Msg = c10PatternMsg(q.ID, size+rng.Intn(size/2), q.Ver == c10VerJSON)
+		q.Timeout, q.Ctx, q.Status = 0, nil, nil
+		c10Encode(&q)
+		s.Reqs = append(s.Reqs, q)
+	}
+	return s
+}
+
+// a burst against a small job queue (queuecap 0/1/2, one or two workers) with an implementation that takes 40 ms: more
+// requests than workers + queue slots + 1 arrive faster than they are served. Every well-formed two-way request must
+// still be answered exactly once - with the implementation's result, or, for the few that carry a timeout of their own, a
+// queue-timeout answer if they really waited that long (either outcome accepted, the window is checked) - none dropped.
+func c10GenBurstQueue(rng *rand.Rand, cfg c10Cfg, udp bool, tier string) c10Scn {
+	s := c10Scn{Cfg: cfg, UDP: udp, Kind: "burst-queue", Conns: 1 + rng.Intn(2), Chunks: []int{4096}}
+	n := cfg.Pool + cfg.queueCap() + 6 + rng.Intn(3)
+	ids := c10DistinctIDs(rng, n)
+	for i := 0; i < n; i++ {
+		q := c10GenReq(rng, cfg, ids[i])
+		q.Func = c10PickFn(rng)
+		if !c10IsKnownVer(q.Ver) {
+			q.Ver = c10VerTars
+		}
+		q.Msg = c10RandBytes(rng, true)
+		q.SleepMs = 40
+		q.PType = c10Normal
+		if i%5 == 4 {
+			q.PType = c10OneWay
+		}
+		q.Timeout = 0
+		if i >= 3 && i%4 == 3 && q.Ver != c10VerTup {
+			q.Race, q.Timeout = "queue", int32(60+40*rng.Intn(4)) // may or may not have elapsed when a worker is free
+		}
+		c10Encode(&q)
+		s.Reqs = append(s.Reqs, q)
+	}
+	return s
+}
+
 // races (handle timeout configured): handlers that run for about the handle timeout, so that the goroutine running
 // Invoke and the deadline really race; every outcome the schedules theorem allows is accepted, nothing else
 func c10GenRaceHandle(rng *rand.Rand, cfg c10Cfg, udp bool, tier string) c10Scn {
@@ -1237,7 +1333,7 @@ func c10Corpus() []c10Scn {
 		for k, fn := range c10ShapeNames { // one-way calls that succeed: nothing may come back although the dispatcher fills a response
 			reqs = append(reqs, c10Req{Ver: ver, PType: c10OneWay, ID: id + 100 + int32(k), Func: fn, Kind: c10KOk, Code: 7, Msg: boom})
 		}
-		shapes = append(shapes, mk(c10Cfg{0, 0}, ver == c10VerTup, reqs...))
+		shapes = append(shapes, mk(c10Cfg{0, 0, 0}, ver == c10VerTup, reqs...))
 	}
 	// the two timeout clauses over every version x way x transport, on every run (the random scenarios leave cells empty):
 	// queue timeout behind a blocker (pool 1), and handlers overrunning the handle timeout (no pool: all at once)
@@ -1253,12 +1349,12 @@ func c10Corpus() []c10Scn {
 				hs = append(hs, c10Req{Ver: ver, PType: pt, ID: id, Func: c10ShapeNames[(k+int(ver)+2)%len(c10ShapeNames)], SleepMs: 750, Kind: int32(k), Code: 9, Msg: boom})
 			}
 		}
-		q := mk(c10Cfg{1, 0}, udp, qs...)
+		q := mk(c10Cfg{1, 0, 0}, udp, qs...)
 		q.Kind = "queue"
-		shapes = append(shapes, q, mk(c10Cfg{0, 250}, udp, hs...))
+		shapes = append(shapes, q, mk(c10Cfg{0, 250, 0}, udp, hs...))
 	}
 	// pipelined requests cut inside the next request's length header (TCP), without and with a worker pool
-	for _, cfg := range []c10Cfg{{0, 0}, {1, 0}} {
+	for _, cfg := range []c10Cfg{{0, 0, 0}, {1, 0, 0}} {
 		var rs []c10Req
 		for k := int32(0); k < 5; k++ {
 			rs = append(rs, c10Req{Ver: []int16{c10VerTars, c10VerJSON, c10VerTup}[k%3], ID: 3000 + k, Func: c10ShapeNames[k%5], Kind: k % 3, Code: 11, Msg: boom})
@@ -1270,23 +1366,23 @@ func c10Corpus() []c10Scn {
 	return append(shapes, []c10Scn{
 		// Props/C10.v C10_error_code_on_wire_refuted (tup_error_witness): TUP, id 7, *tars.Error{78, "boom"}; and the same
 		// failure seen by a TARS and a JSON caller
-		mk(c10Cfg{0, 0}, false,
+		mk(c10Cfg{0, 0, 0}, false,
 			c10Req{Ver: c10VerTup, ID: 7, Func: "act", Kind: c10KTarsErr, Code: 78, Msg: boom},
 			c10Req{Ver: c10VerTars, ID: 8, Func: "act", Kind: c10KTarsErr, Code: 78, Msg: boom},
 			c10Req{Ver: c10VerJSON, ID: 9, Func: "act", Kind: c10KTarsErr, Code: 78, Msg: boom},
 			c10Req{Ver: c10VerTup, ID: 10, Func: "nosuch"}),
 		// repaired 535b05c: one-way request whose handler overruns the handle timeout; repaired be28e55: the
 		// handle-timeout reply of a TUP / JSON request keeps version and packet type
-		mk(c10Cfg{0, 250}, false,
+		mk(c10Cfg{0, 250, 0}, false,
 			c10Req{Ver: c10VerTup, PType: c10OneWay, ID: 1, Func: "act", SleepMs: 750},
 			c10Req{Ver: c10VerTars, PType: c10OneWay, ID: 2, Func: "act", SleepMs: 750},
 			c10Req{Ver: c10VerTup, PType: 0, ID: 104, Func: "act", SleepMs: 750},
 			c10Req{Ver: c10VerJSON, PType: 5, ID: 105, Func: "act", SleepMs: 750, Msg: B("m")}),
-		mk(c10Cfg{1, 250}, true,
+		mk(c10Cfg{1, 250, 0}, true,
 			c10Req{Ver: c10VerTars, PType: c10OneWay, ID: 3, Func: "act", SleepMs: 750},
 			c10Req{Ver: c10VerJSON, PType: 0, ID: 4, Func: "act", SleepMs: 750, Msg: B("m")}),
 		// TUP: queue timeout behind a blocker (pool 1)
-		mk(c10Cfg{1, 0}, false,
+		mk(c10Cfg{1, 0, 0}, false,
 			c10Req{Ver: c10VerTars, ID: 11, Func: "act", SleepMs: 500, Role: "blocker"},
 			c10Req{Ver: c10VerTup, ID: 12, Func: "act", Timeout: 1, Queued: 500, Role: "queued"},
 			c10Req{Ver: c10VerTars, ID: 13, Func: "act", Timeout: 100, Queued: 500, Role: "queued"},
@@ -1298,16 +1394,24 @@ func c10Corpus() []c10Scn {
 func c10Configs(tier string) []c10Cfg {
 	ht := 250
 	if tier == "thorough" {
-		return []c10Cfg{{0, 0}, {1, 0}, {3, 0}, {0, ht}, {1, ht}, {3, ht}, {2, 0}, {2, 400}, {8, 0}, {0, 400}}
+		return []c10Cfg{{0, 0, 0}, {1, 0, 0}, {3, 0, 0}, {0, ht, 0}, {1, ht, 0}, {3, ht, 0}, {2, 0, 0}, {2, 400, 0}, {8, 0, 0}, {0, 400, 0}}
 	}
-	return []c10Cfg{{0, 0}, {1, 0}, {3, 0}, {0, ht}, {1, ht}, {3, ht}}
+	return []c10Cfg{{0, 0, 0}, {1, 0, 0}, {3, 0, 0}, {0, ht, 0}, {1, ht, 0}, {3, ht, 0}}
+}
+
+// configurations with a small job queue: only the burst scenarios run against them
+func c10SmallQueueConfigs(tier string) []c10Cfg {
+	if tier == "thorough" {
+		return []c10Cfg{{1, 0, 1}, {2, 0, -1}, {1, 0, -1}, {1, 0, 2}, {2, 0, 1}, {2, 0, 2}, {1, 250, 1}}
+	}
+	return []c10Cfg{{1, 0, 1}, {2, 0, -1}}
 }
 
 func c10Gen(tier string, rng *rand.Rand) []c10Scn {
 	var out []c10Scn
-	nt, nu, nq, nr, ns, nh, no := 8, 4, 3, 2, 2, 2, 2
+	nt, nu, nq, nr, ns, nh, no, nb, nbq := 8, 4, 3, 2, 2, 2, 2, 2, 4
 	if tier == "thorough" {
-		nt, nu, nq, nr, ns, nh, no = 90, 36, 12, 8, 8, 8, 10
+		nt, nu, nq, nr, ns, nh, no, nb, nbq = 90, 36, 12, 8, 8, 8, 10, 8, 12
 	}
 	for _, cfg := range c10Configs(tier) {
 		for i := 0; i < nt; i++ {
@@ -1333,6 +1437,12 @@ func c10Gen(tier string, rng *rand.Rand) []c10Scn {
 				out = append(out, c10GenRaceQueue(rng, cfg, i%2 == 1, tier))
 			}
 		}
+		if cfg.HT == 0 || tier == "thorough" {
+			for i := 0; i < nb; i++ {
+				out = append(out, c10GenBurstLarge(rng, cfg, i%2 == 1, tier, false))
+			}
+			out = append(out, c10GenBurstLarge(rng, cfg, cfg.Pool%2 == 1, tier, true))
+		}
 		if cfg.HT > 0 {
 			for i := 0; i < nr; i++ {
 				out = append(out, c10GenRaceHandle(rng, cfg, i%2 == 1, tier))
@@ -1341,6 +1451,12 @@ func c10Gen(tier string, rng *rand.Rand) []c10Scn {
 				out = append(out, c10GenSched(rng, cfg, i%2 == 1, tier))
 			}
 		}
+	}
+	for _, cfg := range c10SmallQueueConfigs(tier) {
+		for i := 0; i < nbq; i++ {
+			out = append(out, c10GenBurstQueue(rng, cfg, i%2 == 0, tier)) // UDP first
+		}
+		out = append(out, c10GenBurstLarge(rng, cfg, true, tier, false))
 	}
 	return out
 }
